@@ -334,12 +334,26 @@ def mddEngine (c i : List String) : Option Res := do
       | .ok => (showResult r1).1 ++ (match r2 with | some r => " / alt " ++ (showResult r).1 | none => "")
       | .cutoff => "cutoff"
       | .crash => "panic"
+    -- which observables differ (relative to the first admissible result): lets each property look at its own observables
+    let dtoks := if agree then "" else
+      (let (st, cs, ups, ex) := showResult r1
+       let ds : List String :=
+         (if oc == .ok && join io.status != st then ["D:status"] else []) ++
+         (if oc == .cutoff && io.status != ["cutoff"] then ["D:status"] else []) ++
+         (if oc == .crash && io.status != ["panic"] then ["D:status"] else []) ++
+         (if oc == .ok && sortStr (io.cutset.map (fun (s, d, v, ub, _) => s!"{s} {d} {v} {ub}")) != cs then ["D:cutset"] else []) ++
+         (if oc == .ok && sortStr io.ups != ups then ["D:ups"] else []) ++
+         (if oc == .ok && join (io.expanded.map toString) != ex then ["D:expanded"] else []) ++
+         (if io.polls != mpolls then ["D:polls"] else []) ++
+         (if io.ndom != mndom then ["D:ndom"] else []) ++
+         (if oc == .ok && mlog != ilog then ["D:log"] else [])
+       " " ++ join (if ds.isEmpty then ["D:status"] else ds))
     let detail := if agree then "" else
       (let (_, cs, ups, ex) := showResult r1
        s!" || cutset {cs} || ups {ups} || expanded {ex}" ++
        (match r2 with | some r => (let (_, cs, ups, _) := showResult r; s!" || ALT cutset {cs} || ups {ups}") | none => "") ++
        (if mlog == ilog then "" else s!" || LOG DIFFERS: model-only {mlog.filter (fun x => !ilog.contains x)} impl-only {ilog.filter (fun x => !mlog.contains x)}"))
-    pure { agree := agree, phi := fails.isEmpty, model := ms ++ s!" polls {mpolls}" ++ detail, note := note }
+    pure { agree := agree, phi := fails.isEmpty, model := ms ++ s!" polls {mpolls}" ++ detail, note := note ++ dtoks }
   | _ => none
 
 end Ddo.Engines
